@@ -1,6 +1,7 @@
 package checks
 
 import (
+	"bytes"
 	"encoding/json"
 	"fmt"
 	"reflect"
@@ -19,7 +20,7 @@ import (
 const c14Rule = "rapid draws of schema trees over every kind (records, enums, fixed, arrays, maps, unions with >=1 branches, logical types, names with escapes / non-ASCII) " +
 	"rendered by the reference renderer with drawn key order, whitespace and extra attributes (doc, default, aliases, order, precision, unknown names) at every object level; " +
 	"oracle: SchemaFromString result converted field-by-field equals the generated tree; Marshal output is valid JSON that the reference parser reads back to the same tree " +
-	"and that SchemaFromString reads back DeepEqual; one-edit documents that encoding/json rejects must yield an error; " +
+	"and that SchemaFromString reads back DeepEqual, and the returned bytes stay unchanged while other schemas are marshalled; extra attributes include names that differ from a supported attribute only in case, '_' or '-'; one-edit documents that encoding/json rejects must yield an error; " +
 	"non-trivial = depth>=3 with >=2 different composite kinds and a non-canonical layout or an extra attribute; distinct by document text"
 
 type c14Case struct {
@@ -148,6 +149,17 @@ func runC14(c c14Case) (bool, []string, error) {
 	if !json.Valid(out) {
 		return nt, labels, fmt.Errorf("Marshal produced invalid JSON: %s", out)
 	}
+	// the bytes Marshal returned belong to the caller (NewFileWriter keeps them
+	// until the header is written): serialising other schemas must not change them
+	kept := append([]byte(nil), out...)
+	for _, other := range c14OtherSchemas {
+		if _, err := other.Marshal(); err != nil {
+			return nt, labels, fmt.Errorf("Marshal of an unrelated schema failed: %v", err)
+		}
+	}
+	if !bytes.Equal(out, kept) {
+		return nt, labels, fmt.Errorf("the bytes returned by Marshal changed when other schemas were marshalled afterwards:\n was %s\n now %s", kept, out)
+	}
 	rp, err := ref.ParseSchema(out)
 	if err != nil {
 		return nt, labels, fmt.Errorf("reference parser rejects Marshal output %s: %v", out, err)
@@ -169,6 +181,21 @@ func runC14(c c14Case) (bool, []string, error) {
 	}
 	return nt, labels, nil
 }
+
+var c14OtherSchemas = func() []*avro.Schema {
+	var out []*avro.Schema
+	for _, doc := range []string{
+		`{"type":"record","name":"OtherRecordWithAQuiteLongNameToFillBuffers","namespace":"org.example.other","fields":[{"name":"alpha","type":"long"},{"name":"beta","type":["null","string"]},{"name":"gamma","type":{"type":"array","items":"double"}}]}`,
+		`"string"`,
+		`{"type":"fixed","name":"F","size":16}`,
+	} {
+		s, err := avro.SchemaFromString(doc)
+		if err == nil {
+			out = append(out, &s)
+		}
+	}
+	return out
+}()
 
 func drawC14(t *rapid.T) c14Case {
 	o := &gen.SchemaOpts{MaxDepth: 4, Enum: true, Logical: true, FancyNames: true, AnyUnion: true, ObjectPrims: true}
